@@ -571,12 +571,13 @@ pub fn run_c12(ctx: &mut Ctx) {
             continue;
         }
         for lk in LEAKS {
-            for ty in 0..2 {
-                if ctx.case(|| format!("C12 leak={:?} shape={}x{} elem={}", lk, shape.0, shape.1, ["Tok", "Zst"][ty])) {
-                    if ty == 0 {
-                        c12_case::<Tok>(ctx, shape, lk)
-                    } else {
-                        c12_case::<Zst>(ctx, shape, lk)
+            for ty in 0..3 {
+                // Kv has no drop glue (needs_drop == false): code paths specialised on that must hold too
+                if ctx.case(|| format!("C12 leak={:?} shape={}x{} elem={}", lk, shape.0, shape.1, ["Tok", "Zst", "Kv"][ty])) {
+                    match ty {
+                        0 => c12_case::<Tok>(ctx, shape, lk),
+                        1 => c12_case::<Zst>(ctx, shape, lk),
+                        _ => c12_case::<Kv>(ctx, shape, lk),
                     }
                 }
                 if ctx.done() {
